@@ -13,6 +13,19 @@ import itertools
 from harness import core
 from harness.core import enc_str, enc_strs, dec_str
 
+MANIFEST = dict(
+        category="proof",
+        technique="Lean 4 theorem over a hand-written model + differential correspondence with the implementation",
+        text="Lean theorems C13_roundtrip / C13_roundtrip_writer / C13_field_count: for every non-empty row of fields "
+             "without line breaks, every single-character delimiter other than the quote/CR/LF and every CR/LF line ending, "
+             "parsing the line produced by the library generator or by csv.writer (QUOTE_MINIMAL) returns exactly the row; "
+             "unbounded in row and field length. The model of parse_complex_csv_line is compared with the real function on "
+             "generated and random lines (str and bytes), and the statement itself is executed on the implementation "
+             "(random + exhaustive small scope).",
+        note="csv.writer's quoting decision is modelled (validated by a stream); bytes are modelled as characters 0..255.",
+        design_ref="5/C13",
+)
+
 DELIMS = [",", ";", "|", "\t"]
 EOLS = ["", "\n", "\r\n"]
 
